@@ -47,7 +47,7 @@ def evidence_C09(agg, tier):
                  "the lazy code path really differed for that value."),
         "fault_kinds_fired": fault_kinds,
         "probes": {k: c.get(k, 0) for k in ("restart_of_parser_prefilled", "restart_twin_of_twin", "pair_reads", "pair_deeps", "pair_basics",
-                                            "pair_reads_after_size0", "twin_read_derives_netloc", "cross_process_twins", "pair_derives", "pair_basics_with_third_url", "pair_basics_with_respelled_third_url", "derive_restart_chains")},
+                                            "pair_reads_after_size0", "twin_read_derives_netloc", "cross_process_twins", "pair_derives", "pair_basics_with_third_url", "pair_basics_with_respelled_third_url", "derive_restart_chains", "alien_hash_salt_twins")},
         "state_measure": "distinct_states = distinct (route that produced the original, kind of restart, set of memo keys the original held at the restart) triples",
         "restarts_by_route_of_original": {k[len("restart_of_route_"):]: v for k, v in sorted(c.items()) if k.startswith("restart_of_route_")},
         "ops_executed": c.get("ops", 0),
